@@ -129,6 +129,8 @@ func runC06Child(cfg *runCfg) error {
 				o = c06RunExit(sc.Handler, sc.Stream)
 			case "alloc":
 				o = c06RunAlloc(sc.BodyLen)
+			case "resub":
+				o = c06RunResub(sc.Ops)
 			default:
 				o = c06RunInflight(&sc)
 			}
@@ -465,7 +467,7 @@ func c06BadPacket(r *rand.Rand) ([]byte, string) {
 
 func runC06(cfg *runCfg) error {
 	r := rand.New(rand.NewSource(cfg.seed))
-	cf := newCasesFile("C06", "Codec", "Inbound", "Parse", "ParseSpec", "ParsePending", "ParseExit", "CheckC06")
+	cf := newCasesFile("C06", "Codec", "Inbound", "Parse", "ParseSpec", "ParsePending", "ParseExit", "ParseResub", "CheckC06")
 	m := &meta{Property: "C06", Distribution: map[string]interface{}{}, Families: map[string][]interface{}{}}
 	dist := map[string]int{}
 
@@ -874,6 +876,42 @@ func runC06(cfg *runCfg) error {
 	cf.def("alloc_cases", "list alloc_case", cList(allocCases))
 	cf.result("V_alloc", "c06_alloc_violations alloc_cases")
 	cf.result("M_alloc", "c06_alloc_mismatches alloc_cases")
+	// ---- hostile SUBACK codes, link loss, re-subscription through a RetryClient ----
+	child, err = c06Spawn()
+	if err != nil {
+		return err
+	}
+	var resubCases []string
+	for _, ops := range c06ResubScenarios(r, cfg.tier) {
+		var o c06ResubObs
+		if !child.runJSON(&c06Scenario{Mode: "resub", Ops: ops}, &o) {
+			crash := child.kill()
+			nCrash++
+			o = c06ResubObs{Survived: false, Crash: crash}
+			child, err = c06Spawn()
+			if err != nil {
+				return err
+			}
+		}
+		if strings.HasPrefix(o.Crash, "connect:") {
+			return fmt.Errorf("resub scenario could not connect: %s", o.Crash)
+		}
+		opsCoq, opsDesc := c06RsOpsCoq(ops)
+		e1, ok1 := perrOpt(o.Err1)
+		e2, ok2 := perrOpt(o.Err2)
+		alive := o.Survived && len(o.Stuck) == 0 && ok1 && ok2
+		resubCases = append(resubCases, cTuple(opsCoq, cBool(alive), e1, cListInline(o.Wire2Coq), cBool(o.PingErr == "nil"), e2))
+		dist["resub_scenarios"]++
+		if !o.Survived {
+			dist["resub_crashes"]++
+		}
+		m.Families["resub"] = append(m.Families["resub"], map[string]interface{}{"client": "RetryClient, SetClient by hand; link lost after the first connection; second connection without session present: Resubscribe, Retry, Ping",
+			"application_and_first_broker": opsDesc, "observation": o})
+	}
+	child.kill()
+	cf.def("resub_cases", "list resub_case", cList(resubCases))
+	cf.result("V_resub", "c06_resub_violations resub_cases")
+	cf.result("M_resub", "c06_resub_mismatches resub_cases")
 
 	for k, v := range dist {
 		m.Distribution[k] = v
@@ -884,9 +922,9 @@ func runC06(cfg *runCfg) error {
 	m.Distribution["parse_random"] = nRandParse
 	m.Distribution["parse_panics"] = nPanic
 	m.Distribution["stream_crashes"] = nCrash
-	m.Evaluations = len(parseCases) + len(streamCases) + len(inflightCases) + len(exitCases) + len(allocCases)
-	m.DistinctNontrivial = nEnumParse + nNulParse + len(streamCases) - dist["stream_all-good"] + len(inflightCases) + len(exitCases) + len(allocCases)
-	m.Rule = fmt.Sprintf("parsers: every (type, flag) x every body over {00,01,02,80,FF} up to length %d through the hook VerifParse (panics recovered), plus %d random/structured bodies, plus %d PUBLISH bodies whose topic mixes multi-byte / ill-formed UTF-8 fragments with the byte 00 at every position (and the same fragments without 00); streams: corpus of the repaired defects, good PUBLISH + PUBLISH with such a topic + good PUBLISH, an inbound QoS 2 PUBLISH (payload of 1/4/20 distinct bytes) + 1-4 further small packets of 12 kinds (PUBLISH QoS 0/1/2 with smaller/equal/larger payloads, stray acknowledgements, PINGRESP, CONNACK) + its PUBREL, complete and as prefix of a malformed packet, then good packets followed by a malformed packet of 14 kinds / truncation / one-byte mutation / random bytes, fed to a connected BaseClient in a child process with a 6 GiB address-space limit (a crash is attributed to the exact stream); in flight: 1-3 blocking calls (Subscribe with 1-4 filters, Unsubscribe, Publish QoS 1/2, Ping) on a connected BaseClient in a child process, the peer answers with hostile acknowledgements carrying their identifiers (SUBACK with 0/n-1/n+1/n+5/255 codes, failure and illegal codes, flags, short and long bodies, duplicates, other kinds, CONNACK again, truncation), enumerated per request kind plus random combinations; exit: streams (peer closes, malformed kinds, truncation) into a client whose transport blocks in Close() until released, with Done(), Err() and the callback log sampled inside Close(), while it is held, and right after Done() is seen closed; alloc: one QoS 0 PUBLISH whose body (144 MiB; thorough also 1, 70, 129 MiB and 268,435,455 bytes) is generated into the buffers the reader passes to Read, runtime.MemStats.TotalAlloc difference around it. distinct_nontrivial = enumerated parser inputs (distinct by construction) + streams that are not all-good + in-flight scenarios", L, nRandParse, nNulParse)
+	m.Evaluations = len(parseCases) + len(streamCases) + len(inflightCases) + len(exitCases) + len(allocCases) + len(resubCases)
+	m.DistinctNontrivial = nEnumParse + nNulParse + len(streamCases) - dist["stream_all-good"] + len(inflightCases) + len(exitCases) + len(allocCases) + len(resubCases)
+	m.Rule = fmt.Sprintf("parsers: every (type, flag) x every body over {00,01,02,80,FF} up to length %d through the hook VerifParse (panics recovered), plus %d random/structured bodies, plus %d PUBLISH bodies whose topic mixes multi-byte / ill-formed UTF-8 fragments with the byte 00 at every position (and the same fragments without 00); streams: corpus of the repaired defects, good PUBLISH + PUBLISH with such a topic + good PUBLISH, an inbound QoS 2 PUBLISH (payload of 1/4/20 distinct bytes) + 1-4 further small packets of 12 kinds (PUBLISH QoS 0/1/2 with smaller/equal/larger payloads, stray acknowledgements, PINGRESP, CONNACK) + its PUBREL, complete and as prefix of a malformed packet, then good packets followed by a malformed packet of 14 kinds / truncation / one-byte mutation / random bytes, fed to a connected BaseClient in a child process with a 6 GiB address-space limit (a crash is attributed to the exact stream); in flight: 1-3 blocking calls (Subscribe with 1-4 filters, Unsubscribe, Publish QoS 1/2, Ping) on a connected BaseClient in a child process, the peer answers with hostile acknowledgements carrying their identifiers (SUBACK with 0/n-1/n+1/n+5/255 codes, failure and illegal codes, flags, short and long bodies, duplicates, other kinds, CONNACK again, truncation), enumerated per request kind plus random combinations; exit: streams (peer closes, malformed kinds, truncation) into a client whose transport blocks in Close() until released, with Done(), Err() and the callback log sampled inside Close(), while it is held, and right after Done() is seen closed; alloc: one QoS 0 PUBLISH whose body (144 MiB; thorough also 1, 70, 129 MiB and 268,435,455 bytes) is generated into the buffers the reader passes to Read, runtime.MemStats.TotalAlloc difference around it; resub: a RetryClient subscribes 1-3 times with 1-3 filters, the broker answers with return codes from {00,01,02,80,03,7F,FF} (every requested QoS x every code for one filter, random combinations, a wrong number of codes for the last Subscribe), the link is lost, SetClient + Connect without session present + Resubscribe + Retry + Ping on a second connection, all in a child process. distinct_nontrivial = enumerated parser inputs (distinct by construction) + streams that are not all-good + in-flight scenarios", L, nRandParse, nNulParse)
 	m.Exhaustive = true
 	if err := cf.write(cfg.outDir); err != nil {
 		return err
